@@ -323,7 +323,9 @@ pub fn run(ctx: &Ctx) -> Report {
         let mut progs: Vec<Vec<Op>> = Vec::new();
         let seals = [vec![Op::Fp], vec![Op::Sha1(0), Op::Fp], vec![Op::Sha256(1), Op::Fp], vec![Op::Sha1(0), Op::Sha256(1), Op::Fp, Op::Fp, Op::Raw(0xFF00, vec![1])]];
         for s in &seals {
-            for pre in [vec![Op::Nested(0)], vec![Op::Nested(1), Op::Raw(0xFF00, vec![0x42])], vec![Op::Elsewhere(0), Op::CustomLazy(1)], vec![Op::Elsewhere(1), Op::CustomLazy(6), Op::CustomLazy(3)], vec![Op::Poison(8)], vec![Op::Poison(9)], vec![Op::Poison(10), Op::Typed(Kind::Software, b"sw".to_vec())], vec![Op::Poison(11)], vec![Op::Poison(12)]] {
+            for pre in [vec![Op::Nested(0)], vec![Op::Nested(1), Op::Raw(0xFF00, vec![0x42])], vec![Op::Elsewhere(0), Op::CustomLazy(1)], vec![Op::Elsewhere(1), Op::CustomLazy(6), Op::CustomLazy(3)], vec![Op::Poison(8)], vec![Op::Poison(9)], vec![Op::Poison(10), Op::Typed(Kind::Software, b"sw".to_vec())], vec![Op::Poison(11)], vec![Op::Poison(12)],
+                // attributes of zero-sized types (they share an address) beside each other and beside the library's own zero-sized USE-CANDIDATE
+                vec![Op::Zst(0), Op::Zst(1), Op::Zst(2), Op::Zst(1)], vec![Op::Typed(Kind::UseCandidate, vec![]), Op::Zst(0), Op::Zst(1)], vec![Op::Zst(2), Op::Typed(Kind::UseCandidate, vec![]), Op::Zst(0), Op::IntoOwned, Op::Zst(1), Op::Zst(0)]] {
                 let mut ops = pre.clone();
                 ops.extend(s.clone());
                 progs.push(ops);
